@@ -246,6 +246,12 @@ func applyAlias(node *CandidateNode, alias *CandidateNode, aliasIndex int, newCo
 	if alias.Kind != MappingNode {
 		return fmt.Errorf("merge anchor only supports maps, got %v instead", alias.Tag)
 	}
+	for parent := node.Parent; parent != nil; parent = parent.Parent {
+		if parent == alias {
+			// a: &x {b: {<<: *x}} - what b merges contains b itself, there is no finite exploded form
+			return fmt.Errorf("cannot explode a merge anchor that refers to a map containing it")
+		}
+	}
 	for index := 0; index < len(alias.Content); index = index + 2 {
 		keyNode := alias.Content[index]
 		log.Debugf("applying alias key %v", keyNode.Value)
